@@ -27,12 +27,15 @@ def run(ctx):
     recs = fr.run_cli(ctx, real, "c06")
     results = fr.validate(ctx, "c06", recs, ref)
     st = fr.judge(ctx, results, PREDS, known)
+    # library half: File.Apply on a file nothing matches returns the very bytes it was given
+    import fam_emit as fe
+    ust = fe.unmatched_identity(ctx, known, quick)
     mc = [r for r in ctx.tlc_runs if r["name"] == "mc-pipeline"][0]
     r0 = results[0]
     cov = dict(states=mc["distinct"], transitions=mc["states"], traces_validated_against_impl=st["runs"],
                samples=[dict(id=r0[0]["id"], scenario=r0[0]["meta"]["sc"], observed=r0[1], verdict=r0[2]["viol"])],
                evaluations=st["runs"], distinct_nontrivial=len({json_key(r[0]["meta"]["sc"]) for r in results}),
-               model_drift_runs=st["drift"], trace_rejected_runs=st["stuck"], exhaustive=False,
+               model_drift_runs=st["drift"], library_unmatched_cases=ust["cases"], trace_rejected_runs=st["stuck"], exhaustive=False,
                rule="design: all runs of <=%d files x 6 kinds x 32 flag combinations x fault points (TLC, exhaustive); replay: scenarios with at least one unmatched file (7 layouts incl. CRLF, non-gofmt, odd comments, build tags, near-misses), seeded sample in quick; distinct = distinct (kinds, flags) scenarios" % (2 if quick else 3))
     return ctx.finish("model_checking", cov, ASSUME)
 
